@@ -194,11 +194,6 @@ def state_digest(obj):
     return h.hexdigest()
 
 
-class Fail(Exception):
-    def __init__(self, oracle, what):
-        Exception.__init__(self, what); self.oracle, self.what = oracle, what
-
-
 def compare_angular(cx, obj, expected, scale, fails, oracle='value'):
     got = impl_angular(obj, cx.U)
     d, where = poly.gdiff(got, expected)
@@ -360,11 +355,6 @@ def unary_opnames(spec):
     if len(ent) >= 2 and len(set(ns)) == len(ns): names.append('addterms')
     if len(ent) >= 2: names.append('addterms_overlap')
     return names
-
-
-def _bc(W, G):
-    """broadcast a coefficient-shaped array W against G[npts, *shape]"""
-    return np.asarray(W)[None]
 
 
 def run_unary_op(cx, spec, name):
@@ -982,8 +972,8 @@ def dg(x):
 def tables(cls):
     d = cls.__dict__
     if not d.get('__INITIALIZED__'): return None
-    names = d.get('__internallist__')
-    return [int(d['Lmax']), dg([d[n] for n in names])]
+    names = d.get('__internallist__') or ()
+    return [int(d['Lmax']) if 'Lmax' in d else None, dg([d.get(n) for n in names])]
 
 def tryit(f):
     try: return ['ok', dg(f())]
@@ -1111,7 +1101,12 @@ def eval_order(case):
         if steps is None:
             viol('exception', 'order:' + '>'.join(h), 'history process died', h); continue
         first_init = {}          # class digit -> init letter of its first initialisation ('new3' / 'new3L' ...)
+        initseq = []             # order in which the classes got initialised, with their Lmax: the abstract state
         for i, st in enumerate(steps):
+            before_seq = '>'.join(initseq) or 'nothing'
+            for cj, dg_ in enumerate(('3', '2')):
+                if st['pre'][cj] is None and st['post'][cj] is not None: initseq.append('{}D(Lmax={})'.format(dg_, st['post'][cj][0]))
+            after_seq = '>'.join(initseq) or 'nothing'
             op = st['op']; cdig = op[3] if op.startswith('new') else op[-1]
             ci = 0 if cdig == '3' else 1
             out['transitions'] += 1; out['execs'] += 1
@@ -1128,7 +1123,7 @@ def eval_order(case):
                     ini = 'new' + dg_ + ('L' if tq[0] == 2 else '')
                     want = canon[ini + '>' + ini][0]['post'][cj]
                     if tq != want:
-                        viol('order-tables', 'order:tables{}D:after:{}'.format(dg_, _abstract(h[:i + 1])),
+                        viol('order-tables', 'order:tables{}D:initialised-in-order:{}'.format(dg_, after_seq),
                              {'history': h[:i + 1], 'tables': tq, 'canonical': want}, h[:i + 1])
                     if tp is not None and tp != tq:
                         viol('order-tables', 'order:tables{}D:changed-by:{}'.format(dg_, op), {'history': h[:i + 1]}, h[:i + 1])
@@ -1154,14 +1149,10 @@ def eval_order(case):
             if init is None: init = 'new' + cdig      # instance use initialises with the default Lmax
             want = canon[init + '>' + op][1]['res']
             if res != want:
-                viol('order-result', 'order:{}:after:{}'.format(op, _abstract(h[:i])),
+                viol('order-result', 'order:{}:initialised-before:{}'.format(op, before_seq),
                      {'history': h[:i + 1], 'got': res, 'canonical': want}, h[:i + 1])
             elif i > 0: out['nontrivial'] += 1
     return out
-
-
-def _abstract(h):
-    return '>'.join(h)
 
 
 # =========================================================================================== constructexpansion
@@ -1206,8 +1197,8 @@ def run_construct(cx, sub):
         fails.append(('exception', '{}: {} @ {}'.format(type(e).__name__, e, _where(e))))
     out['transitions'] += 1
     for orc, what in fails:
-        out['violations'].append({'oracle': orc, 'key': '{}D:constructexpansion:shape={};N={};pre={};nvec={}'.format(
-            dim, shp(shape), N, pre, len(vecs)), 'detail': {'sub': sub, 'what': what},
+        out['violations'].append({'oracle': orc, 'key': '{}D:constructexpansion:N={};pre={}'.format(dim, N, pre),
+                                  'detail': {'sub': sub, 'what': what},
             'case': {'key': 'construct1:{}D:{}'.format(dim, hashlib.sha1(json.dumps(sub, sort_keys=True).encode()).hexdigest()[:10]),
                      'kind': 'construct', 'dim': dim, 'subs': [sub]}})
     return out
